@@ -103,7 +103,27 @@ PROPS = {
              'positions >= i; make_contiguous changes nothing when the occupied range does not wrap. Kani counts relocated surviving tokens per capacity.'),
 }
 
-TECHNIQUE = {}
+TECHNIQUE = {
+    'C01': 'contract-based deductive verification: Verus postconditions over the abstract view on the extracted real functions (all N) + Kani contract harnesses on the unmodified crate (per N)',
+    'C02': 'contract-based deductive verification: Verus insertion contracts (all N incl. 0) + Kani ledger contracts (per N)',
+    'C03': 'contract-based verification with Kani: ledger (ghost-state) conservation clause in every operation contract, complete per N',
+    'C04': 'contract-based deductive verification: Verus is_init preconditions at every assume_init/slice-cast call site (all N) + Kani contracts over nondeterministic unoccupied storage',
+    'C05': 'Kani contract harnesses (destructor-entry precondition, per N) + BOUNDED native panic-injection stand-in for the unwind paths',
+    'C06': 'Kani contract harnesses (user-code-entry precondition, per N) + BOUNDED native panic-injection stand-in for the unwind paths and the leak clause',
+    'C07': 'contract-based deductive verification: Verus accessor / view contracts (all N) + Kani address-identity contracts (per N); Debug only by a bounded native stand-in',
+    'C08': 'contract-based deductive verification: Verus single-step iterator contracts (all N) + Kani iterator-script contracts over all Bound pairs (per N)',
+    'C09': 'contract-based verification with Kani: full drain contract per N (all Bound pairs, all interleavings, ledger) + Verus proof of the circular cursor arithmetic',
+    'C10': 'contract-based verification with Kani: drain invariant (buffer empty and valid after every step) and leaked-drain contract, per N',
+    'C11': 'contract-based deductive verification: Verus panic/overflow/bounds/termination freedom under wf (all N) + Kani totality and must-panic reachability (per N) + bounded native stand-in for the post-panic state',
+    'C12': 'contract-based verification with Kani: constructor / conversion contracts with ledger and clone-parent ghost state over an (N, M) grid; Verus for new/default/IntoIter',
+    'C13': 'contract-based verification with Kani: eq / ord / hash contracts over u8 buffers with both layouts symbolic, (N, M) pairs; Debug only by a bounded native stand-in',
+    'C14': 'contract-based verification: Kani byte-stream contracts for the std::io impls per N + Verus proofs (all N) of extend_from_slice / truncate_front / as_slices',
+    'C16': 'contract-based verification with Kani: embedded-io(-async) impls against the std::io impls on a bitwise copy of the same symbolic state, three feature sets',
+    'C17': 'contract-based verification with Kani: frame contract "no allocator entry point is called" via allocator stubs on the operation contracts + no_std/alloc-only builds',
+    'C18': 'contract-based verification with Kani under --features unstable (same contracts as the default build) + BOUNDED native differential stand-in (two builds, identical observable traces)',
+    'C19': 'contract-based deductive verification: Verus overflow/division/bounds freedom of all index arithmetic for every N <= usize::MAX + Kani ZST contracts per N + bounded native stand-in at N = usize::MAX',
+    'C20': 'contract-based deductive verification: Verus frame clauses (no slot holding a surviving element changes) for all N + Kani relocation-count contracts per N',
+}
 LEVEL_TEXT = {}
 DESIGN_REF = {}
 
